@@ -256,6 +256,17 @@ def run(chk):
             if ll(re_[1]) < best - (slope * 3e-5 + 1e-9 * max(1.0, abs(best))):
                 chk.violation("C17|powerlaw_mle_alpha|exact-not-maximiser", f"'exact' estimate {re_[1]} has likelihood below a grid point",
                               {"c": c, "cmin": cmin, "ll": float(ll(re_[1])), "grid_best": float(best)})
+            # the objective itself (the private helper the translated theorem C17_source_loglik is about), where it exists under this name:
+            # -n ln zeta(a, cmin) - a sum ln c over the counts >= cmin, the mask applied by the helper
+            fobj = getattr(st, "_discrete_loglikelihood", None)
+            if fobj is not None:
+                for a_ in (1.5, 2.0, 2.75, 4.5):
+                    got = core.call_real(lambda: float(fobj(np.asarray(c, dtype=float), a_, cmin)))
+                    chk.count("discrete_loglikelihood")
+                    if got[0] != "ok" or abs(got[1] - ll(a_)) > 1e-9 * max(1.0, abs(ll(a_))):
+                        chk.violation("C17|powerlaw_mle_alpha|objective", f"_discrete_loglikelihood(c, {a_}, {cmin}) = {got} is not the discrete "
+                                      f"power-law log-likelihood {float(ll(a_))} of the counts >= cmin", {"c": c, "cmin": cmin, "alpha": a_})
+                        break
     # history: custom optimiser options in one call must not leak into a later default call
     np.random.seed((seed0 + 4242) % (2 ** 32))
     c = [int(x) for x in st.powerlaw_sample(size=400, xmin=1, alpha=2.0)]
